@@ -130,3 +130,33 @@ def parent_run(method, nproc, nthr, k, path, child_remove, repo):
                 break
             last[tag] = int(i)
     return {"bad": bad}
+
+
+def isolated_run(method, nproc, nthr, k, path, child_remove, repo, timeout=240):
+    """parent_run in a process of its own: a case in which some thread hangs for ever (a complete() that never
+    returns keeps the logger lock, and every later os.fork() of the same process would then wait for it in
+    acquire_locks()) cannot disturb the cases after it, and the whole case has a deadline."""
+    import json
+    import subprocess
+    verif = os.path.dirname(os.path.dirname(os.path.abspath(__file__)))
+    cfg = json.dumps([method, nproc, nthr, k, path, child_remove, repo])
+    env = dict(os.environ, PYTHONPATH=repo + os.pathsep + verif)
+    try:
+        p = subprocess.run([sys.executable, "-m", "harness.c03_child", cfg], cwd=verif, env=env, timeout=timeout,
+                           stdout=subprocess.PIPE, stderr=subprocess.PIPE, text=True)
+    except subprocess.TimeoutExpired:
+        return {"bad": ["the multi-process run (%s, %d procs x %d threads x %d messages, child_remove=%s) did not finish "
+                        "within %d s" % (method, nproc, nthr, k, child_remove, timeout)]}
+    last = [l for l in p.stdout.splitlines() if l.startswith("RESULT ")]
+    if not last:
+        return {"bad": ["the multi-process run (%s) ended without a result (exit %s): %s"
+                        % (method, p.returncode, p.stderr.strip()[-400:])]}
+    return json.loads(last[-1][7:])
+
+
+if __name__ == "__main__":
+    import json
+    _a = json.loads(sys.argv[1])
+    _r = parent_run(*_a)
+    print("RESULT " + json.dumps(_r), flush=True)
+    os._exit(0)          # do not wait for threads a failed case may have left behind
